@@ -246,3 +246,111 @@ fn nodes_into_order(mut nodes: IndexMap<NaiveDateTime, Number>, ad: ADOrder, id:
         }
     }
 }
+
+/// Verification hooks (compiled only with `--cfg rateslib_verif`): a public handle around the
+/// crate-private Python-facing `Curve`, exposing its constructor, look-ups, derivative-order switch,
+/// JSON and pickling state to an external conformance harness. No behaviour is changed.
+#[cfg(rateslib_verif)]
+pub mod verif_hooks {
+    use super::*;
+
+    #[derive(Clone)]
+    pub struct CurveH(Curve);
+
+    impl CurveH {
+        pub(crate) fn from_inner(c: Curve) -> Self {
+            CurveH(c)
+        }
+        pub(crate) fn into_inner(self) -> Curve {
+            self.0
+        }
+        /// The Python-facing constructor (`Curve.__new__`), `interpolation` by its getter name.
+        pub fn new(
+            nodes: Vec<(NaiveDateTime, Number)>,
+            interpolation: &str,
+            ad: ADOrder,
+            id: &str,
+            convention: Convention,
+            modifier: Modifier,
+            calendar: CalType,
+            index_base: Option<f64>,
+        ) -> Result<Self, String> {
+            let interpolator = match interpolation {
+                "linear" => CurveInterpolator::Linear(LinearInterpolator::new()),
+                "log_linear" => CurveInterpolator::LogLinear(LogLinearInterpolator::new()),
+                "linear_zero_rate" => {
+                    CurveInterpolator::LinearZeroRate(LinearZeroRateInterpolator::new())
+                }
+                "flat_forward" => CurveInterpolator::FlatForward(FlatForwardInterpolator::new()),
+                "flat_backward" => CurveInterpolator::FlatBackward(FlatBackwardInterpolator::new()),
+                "null" => CurveInterpolator::Null(NullInterpolator::new()),
+                _ => return Err("unknown interpolation".to_string()),
+            };
+            Curve::new_py(
+                IndexMap::from_iter(nodes),
+                interpolator,
+                ad,
+                id.to_string(),
+                convention,
+                modifier,
+                calendar,
+                index_base,
+            )
+            .map(CurveH)
+            .map_err(|e| e.to_string())
+        }
+        pub fn value(&self, date: &NaiveDateTime) -> Number {
+            self.0.__getitem__(*date)
+        }
+        pub fn index_value(&self, date: &NaiveDateTime) -> Result<Number, String> {
+            self.0.index_value_py(*date).map_err(|e| e.to_string())
+        }
+        pub fn set_ad_order(&mut self, ad: ADOrder) {
+            let _ = self.0.set_ad_order(ad);
+        }
+        pub fn ad(&self) -> ADOrder {
+            self.0.ad()
+        }
+        pub fn id(&self) -> String {
+            self.0.id()
+        }
+        pub fn interpolation(&self) -> String {
+            self.0.interpolation()
+        }
+        pub fn nodes(&self) -> Vec<(NaiveDateTime, Number)> {
+            self.0.nodes().into_iter().collect()
+        }
+        pub fn node_index(&self, timestamp: i64) -> usize {
+            self.0.inner.node_index(timestamp)
+        }
+        pub fn index_base(&self) -> Option<f64> {
+            self.0.inner.index_base
+        }
+        pub fn equals(&self, other: &CurveH) -> bool {
+            self.0.__eq__(other.0.clone())
+        }
+        /// `Curve.to_json()` as Python sees it (tagged).
+        pub fn to_json_tagged(&self) -> Result<String, String> {
+            self.0.to_json_py().map_err(|e| e.to_string())
+        }
+        /// Untagged JSON through the `JSON` trait.
+        pub fn to_json(&self) -> Result<String, String> {
+            JSON::to_json(&self.0).map_err(|e| e.to_string())
+        }
+        pub fn from_json(json: &str) -> Result<Self, String> {
+            <Curve as JSON>::from_json(json)
+                .map(CurveH)
+                .map_err(|e| e.to_string())
+        }
+        /// The bytes `__getstate__` hands to pickle.
+        pub fn getstate(&self) -> Vec<u8> {
+            serialize(&self.0).unwrap()
+        }
+        /// What `__setstate__` does with those bytes, with the error returned instead of unwrapped.
+        pub fn setstate(state: &[u8]) -> Result<Self, String> {
+            deserialize::<Curve>(state)
+                .map(CurveH)
+                .map_err(|e| e.to_string())
+        }
+    }
+}
